@@ -194,12 +194,26 @@ fn campaign<T: Cell, C: PositiveLength, P: Maximum<T, C> + Threshold<T, C>>(
     let mut pat = 0;
     for col in 0..c {
         for &rows in &[1usize, 3, row_choices[rng.gen_range(0..row_choices.len())]] {
-            let r = match pat % 3 { 0 => 0, 1 => rows - 1, _ => rng.gen_range(0..rows) };
+            // the row of the maximum and the value range of the table vary independently
+            let r = match (pat / 3 + pat) % 3 { 0 => 0, 1 => rows - 1, _ => rng.gen_range(0..rows) };
             let (t, top) = g.table(rng, rows, c, pat, &[(r, col)]);
             let thr = thresholds(rng, g.f32, top);
             run::<T, C, P>(rec, pli, be, arm, &t, thr, "unique_max_every_column");
             pat += 1;
         }
+    }
+    // sparse tables: the lowest value of the element type (0 / a large negative score) everywhere, in particular in the
+    // whole first row, and a few spikes in later rows
+    for it in 0..(if thorough { 60 } else { 24 }) {
+        let rows = [2usize, 3, 5, 9, 33][it % 5];
+        let floor: i64 = if g.f32 { -100 } else { 0 };
+        let mut t: Vec<Vec<i64>> = vec![vec![floor; c]; rows];
+        let top = floor + [1i64, 2, 7, 100][it % 4];
+        for _ in 0..rng.gen_range(1..4) { let (r, cc) = (rng.gen_range(1..rows), rng.gen_range(0..c)); t[r][cc] = top - rng.gen_range(0..2).min(top - floor - 1); }
+        let (r, cc) = (rng.gen_range(1..rows), it % c);
+        t[r][cc] = top;
+        let thr = thresholds(rng, g.f32, top);
+        run::<T, C, P>(rec, pli, be, arm, &t, thr, "sparse_first_row_at_floor");
     }
     // duplicated maxima
     for _ in 0..(if thorough { 40 } else { 12 }) {
